@@ -92,7 +92,33 @@ SESSION = Stage(
     nontrivial=lambda e: e.get("ev") != "Start",
 )
 
+AUTH = Stage(
+    family="auth",
+    mc={"quick": [("MC_Auth.tla", "MC_Auth.cfg", "pass"), ("MC_Auth.tla", "MC_Auth_neg.cfg", "fail")],
+        "thorough": [("MC_Auth.tla", "MC_Auth_t.cfg", "pass"), ("MC_Auth.tla", "MC_Auth_neg.cfg", "fail")]},
+    parts={"quick": [("", 4)], "thorough": [("", 8)]},
+    trace=("Trace_Auth.tla", "Trace_Auth.cfg"),
+    nontrivial=lambda e: True,
+)
+
 CHECKS = {
+    "C15": dict(
+        stages=[AUTH],
+        technique="TLA+ handshake state machine (Auth.tla) with RFC 1321 MD5 transcribed into TLA+ (MD5.tla): TLC exhaustive "
+                  "on the abstract-digest model + TLC recomputation of every digest of recorded real handshakes",
+        level_text="TLC explores the handshake (build, slot encode, decode, verify, reply, decode, verify) for every digest value "
+                   "of the scaled model: Survives and Verifies hold when the slot is read raw; reading it as a C-string is the "
+                   "negative configuration.  Real handshakes of CMPP 2.0, CMPP 3.0 and SMGP 3.0 (accounts 0..6/0..8 octets, "
+                   "secrets 0..32 octets, timestamps over 0..1231235959 incl. leading zeros, status codes; 40% of the credential "
+                   "sets chosen so that the digest contains or ends in 0x00) are validated step by step; TLC recomputes both "
+                   "authenticators with MD5.tla (checked against the RFC test suite) from the logged credentials",
+        level_note="SMGP has no library function for the server authenticator, so only its transport is checked there; the SMGP "
+                   "client authenticator is reached through a verif-tagged export shim; NewConnect/NewLogin read the clock, their "
+                   "timestamp is read back from the PDU",
+        rule="one handshake = one trace of 6 events; distinct = distinct events",
+        assumptions=["MD5.tla (validated by ASSUME against RFC 1321 A.5)", "crypto/md5 is used by the driver only to bias the "
+                     "credential search and to fabricate the SMGP server authenticator"],
+    ),
     "C10": dict(
         stages=[SESSION],
         technique="TLA+ session state machine over the command tables of Layouts.tla (Session.tla): TLC exhaustive over all "
@@ -334,4 +360,4 @@ CHECKS = {
 # properties without a check yet (reason shown in MANIFEST.not_applicable)
 NOT_CLAIMED = {}
 # commits in /repo that add verif-tagged hooks
-HOOK_COMMITS = []
+HOOK_COMMITS = ["4ecfaca"]
